@@ -198,6 +198,11 @@ pub fn run_fhist(inp: &mut dyn BufRead, out: &mut dyn Write) {
                                     Ok(b) => (if b { "true" } else { "false" }).to_owned(),
                                     Err(_) => "err".into(),
                                 },
+                                // the other public way of entering a line (History::add_owned): the same meaning
+                                "addo" => match h.add_owned(parse_str(t[2])) {
+                                    Ok(b) => (if b { "true" } else { "false" }).to_owned(),
+                                    Err(_) => "err".into(),
+                                },
                                 // the same write stopped by the kernel once the file would grow beyond K bytes (a crash point)
                                 "csave" => with_fsize_limit(t[2].parse().unwrap(), || io(h.save(&path))),
                                 "cappend" => with_fsize_limit(t[2].parse().unwrap(), || io(h.append(&path))),
